@@ -18,6 +18,37 @@ def kind_of(c):
     return m.group(1) if m else c
 
 
+def post_statement_join(P, b):
+    """The block that starts the post-statement test in parse_stmt_block: `at(Eof)` or — the same test spelled as a `match` —
+    a `peek()` other than the statement dispatch's own."""
+    disp_peek = None
+    cfg = P.cfg(b)
+    for bb in cfg.rpo():
+        t = b.term(bb)
+        if t["t"] == "switch":
+            d = terms.strip(P.operand_term(b, bb, t["discr"]))
+            if d[0] == "discr" and canon(d[1]) == "Parser::peek(self)" and len(d[1]) > 3:
+                disp_peek = terms.strip(d[1])[3]
+                break
+    J = [bb for bb, t in b.calls() if callee_name(t)[0] == "parser::Parser::at" and kind_of(canon(P.call_arg_terms(b, bb)[1])) == "Eof"]
+    J += [bb for bb, t in b.calls() if callee_name(t)[0] == "parser::Parser::peek" and bb != disp_peek]
+    return J
+
+
+def next_kinds(pi, all_kinds):
+    """What the path has established about the kind of the next token: `at(K)` tests and switches on `peek()` alike
+    (valid up to the first consuming call, which is where the post-statement paths end)."""
+    ks = set(all_kinds)
+    for f in pi.cmp_facts():
+        if f[0] == "call" and f[1] == "Parser::at":
+            k = kind_of(f[2][1])
+            ks = ks & {k} if f[3] else ks - {k}
+    for d in pi.decisions():
+        if d[0] == "variant" and d[1] == "Parser::peek(self)":
+            ks &= set(d[2])
+    return frozenset(ks)
+
+
 def trace_of(P, b, pi):
     out = []
     for bb, nm, a in pi.calls():
@@ -111,7 +142,7 @@ def block_rules(chk, P):
         return
     cfg = P.cfg(b)
     # J: the post-statement test
-    J = [bb for bb, t in b.calls() if callee_name(t)[0] == "parser::Parser::at" and kind_of(canon(P.call_arg_terms(b, bb)[1])) == "Eof"]
+    J = post_statement_join(P, b)
     if not chk.anchor("post-statement end-of-input test", len(J) == 1 and J):
         return
     J = J[0]
@@ -139,8 +170,10 @@ def block_rules(chk, P):
     # post-statement: Eof -> back to the dispatch without consuming; Eol -> consume it; anything else -> Err
     post = set()
     head = loop_header(P, b, disp)
+    ALLK = frozenset(v["name"] for v in (pan._variants_of_discr(b, b.term(disp)["discr"], disp) or []))
     for pi in tab.paths(P, b, start=J, stop=lambda x: x == head):
-        facts_ = tuple(sorted((kind_of(f[2][1]), f[3]) for f in pi.cmp_facts() if f[0] == "call" and f[1] == "Parser::at"))
+        ks = next_kinds(pi, ALLK)
+        cls = "Eof" if ks == {"Eof"} else "Eol" if ks == {"Eol"} else "other" if ks and not (ks & {"Eof", "Eol"}) else "|".join(sorted(ks))[:60]
         cons = trace_of(P, b, pi)
         if pi.path[-1] == head:
             end = "loop"
@@ -148,13 +181,15 @@ def block_rules(chk, P):
             end = ordrules.ret_shape(pi)
         else:
             continue
-        if ("Eol", True) in facts_ and cons in (("get",), ("Eol",)):
+        if not ks:
+            continue    # contradictory kind tests: not a path of the program
+        if cls == "Eol" and cons in (("get",), ("Eol",)):
             cons = ("skip",)   # with an Eol known to be next, get() / expect(Eol) consume exactly what skip() does
-        post.add((facts_, cons, end))
-    want_post = {((("Eof", True),), (), "loop"), ((("Eof", False), ("Eol", True)), ("skip",), "loop"), ((("Eof", False), ("Eol", False)), ("get",), "Err")}
-    bad = [p for p in post if p[2] == "loop" and p not in want_post] + [p for p in post if p[0] == (("Eof", False), ("Eol", False)) and p[2] != "Err"]
-    want_post = set(w for w in want_post if w in post or w[0] != (("Eof", True),))   # an explicit top-level exit at Eof is judged by the block-exit rule
-    chk.require(not bad and want_post <= post, "GTE", "GTE:stmt:must-be-followed-by-newline-or-end", "after a statement: Eof -> dispatch; Eol -> consumed; anything else -> Err", "post-statement behaviour: %s" % sorted(post, key=str)[:8])
+        post.add((cls, cons, end))
+    want_post = {("Eof", (), "loop"), ("Eol", ("skip",), "loop"), ("other", ("get",), "Err")}
+    bad = [p for p in post if p[2] == "loop" and p not in want_post] + [p for p in post if p[0] not in ("Eof", "Eol") and p[2] != "Err"]
+    want_post = set(w for w in want_post if w in post or w[0] != "Eof")   # an explicit top-level exit at Eof is judged by the block-exit rule
+    chk.require(not bad and want_post <= post, "GTE", "GTE:stmt:must-be-followed-by-newline-or-end", "after a statement: Eof -> dispatch; Eol -> consumed; anything else -> Err", "post-statement behaviour (next token, consumed, then): %s" % sorted(post, key=str)[:8])
     # block exits: every path from a statement arm that returns Ok
     t = b.term(disp)
     vs = pan._variants_of_discr(b, t["discr"], disp)
@@ -183,7 +218,7 @@ def block_rules(chk, P):
                 chk.require(top, "ORD", "ORD:block-exit:Eof-only-at-top-level", "Ok exit in the Eof arm only when end_token is None", "a nested block can end at end-of-input: the Eof arm returns Ok without end_token being None", site)
                 seen.add("Eof")
             elif (any(f[0] == "call" and f[1] == "Option::is_some" and f[2] == ("end_token",) and f[3] is False for f in pi.cmp_facts()) or any(d[0] == "variant" and d[1] == "end_token" and d[2] == ("None",) for d in dec)) \
-                    and any(f[0] == "call" and f[1] == "Parser::at" and kind_of(f[2][1]) == "Eof" and f[3] is True for f in pi.cmp_facts()):
+                    and J in pi.path and next_kinds(tab.PathInfo(P, b, pi.path[pi.path.index(J):]), ALLK) == {"Eof"}:
                 chk.ok("ORD", "ORD:block-exit:post-statement-Eof-at-top-level", "Ok exit after a statement at end of input, guarded by end_token == None", site)
             else:
                 chk.fail("ORD", "ORD:block-exit:unexpected:%s" % "|".join(kinds[:3]), "after a statement starting with %s the block can return Ok without the End/Eof arms deciding: an unterminated nested block (input cut off, with or without a final newline) is accepted" % kinds[:4], site)
@@ -372,7 +407,7 @@ def declare_rule(chk, P):
     if not chk.anchor("virtual_signals.insert", len(ins) == 1 and ins):
         return
     rows = set()
-    J = [bb for bb, t in b.calls() if callee_name(t)[0] == "parser::Parser::at" and kind_of(canon(P.call_arg_terms(b, bb)[1])) == "Eof"]
+    J = post_statement_join(P, b)
     for pi in tab.paths(P, b, start=ins[0], stop=lambda x: x in J, limit=20000):
         d = [x[2] for x in pi.decisions() if x[0] == "variant" and x[1].startswith("HashMap::insert(self.virtual_signals")]
         if not d:
@@ -411,4 +446,8 @@ def run(chk, ctx):
         for pi in tab.paths(P, pn, to_return_only=True):
             if ordrules.ret_shape(pi) == "Ok":
                 oks.add(canon(terms.strip(pi.ret())[3][0][1]))
+            else:
+                r_ = canon(pi.ret())
+                if re.fullmatch(r"Result::map_err\(i64::from_str_radix\(.*\), closure\(\{closure#0\}\)\)", r_):
+                    oks.add("try(%s)" % r_)    # the conversion's own Result returned as it is: Ok(n) is its Ok(n)
         chk.require(bool(oks) and all(re.fullmatch(r"try\(Result::map_err\(i64::from_str_radix\(.*\), closure\(\{closure#0\}\)\)\)", o) for o in oks), "ORG", "ORG:parse_number:value-is-checked-conversion", "Ok(n) only with n = i64::from_str_radix(..)?", "parse_number Ok values: %s" % sorted(oks))
